@@ -8,23 +8,22 @@ import json, os, shutil, subprocess, sys, tempfile, threading, queue, time
 V = os.path.dirname(os.path.dirname(os.path.abspath(__file__)))
 ALL = "C01 C09 C08 C06 C04 C07 C03 C05 C11 C02 C14 C13 C12 C10 C19 C17 C15 C18 C20 C16".split()
 def order(f):
-    first = []
-    # files whose code only some checks execute: the others cannot notice anything
+    # per file: the checks whose programs execute that code (a mutant the others cannot notice is not tried against them)
     if f == 'main.go': return "C18 C16 C20 C12".split()
     if 'x/text' in f: return "C14 C01 C16 C13 C12 C20".split()
     if 'mathutils' in f: return "C05 C15 C02 C17 C01".split()
     if f.startswith('pkg/types'): return "C02 C17 C19 C03".split()
     if f.startswith('pkg/yamlutils'): return "C13 C10 C18 C12 C20".split()
-    if False: pass
-    elif f == 'pkg/codegen/utils.go': first = "C15 C03 C02 C01 C05 C08 C16".split()
-    elif f.startswith('pkg/codegen'): first = "C01 C16 C12 C13 C02 C14 C09 C08".split()
-    elif f.startswith('pkg/types'): first = "C02 C17 C19 C03".split()
-    elif f.startswith('pkg/yamlutils'): first = "C13 C10 C18".split()
-    elif f.startswith('pkg/schemas') or f.startswith('pkg/cmputil'): first = "C13 C18 C10 C20 C01 C11 C04 C03 C02 C12 C16 C14".split()
-    elif 'yaml_formatter' in f: first = "C17 C01 C19 C16".split()
-    elif 'json_formatter' in f: first = "C01 C04 C09 C19 C02 C03".split()
-    elif 'generate.go' in f or 'output.go' in f: first = "C20 C01 C10 C14 C12 C16 C18".split()
-    return first + [c for c in ALL if c not in first]
+    if f.endswith('validator.go'): return "C01 C06 C05 C07 C09 C04 C11 C17 C19".split()
+    if f.endswith('json_formatter.go'): return "C01 C04 C09 C19 C02 C03".split()
+    if f.endswith('yaml_formatter.go'): return "C17 C01 C19".split()
+    if f == 'pkg/codegen/utils.go': return "C15 C03 C02 C01 C05 C08".split()
+    if f.startswith('pkg/codegen'): return "C01 C16 C12 C13 C02 C08 C09".split()
+    if f == 'pkg/schemas/model.go': return "C13 C18 C11 C04 C03 C01 C10 C02".split()
+    if f.startswith('pkg/schemas'): return "C13 C18 C10 C20 C12".split()
+    if f.startswith('pkg/cmputil'): return "C14 C09 C10 C06".split()
+    if f.endswith('schema_generator.go'): return "C01 C09 C08 C04 C03 C02 C11 C14 C10 C18 C16".split()
+    return "C20 C01 C10 C14 C12 C16 C18".split()
 muts = [m for m in map(json.loads, open(sys.argv[1])) if m['suite'] == 'survives']
 outp = sys.argv[2]
 workers = int(sys.argv[3]) if len(sys.argv) > 3 else 2
